@@ -4,7 +4,7 @@ HERE = os.path.dirname(os.path.dirname(os.path.abspath(__file__)))
 sys.path.insert(0, HERE)
 from vlib import build
 DRIVERS = [("drv_jitalloc", "asan"), ("drv_emit", "asan"), ("drv_codec", "asan"), ("drv_containers", "asan"), ("drv_constpool", "asan"),
-           ("drv_sections", "asan"), ("drv_labels", "asan"), ("drv_emit_a64", "asan"), ("drv_threads", "tsan"), ("drv_threads", "asan"), ("drv_oom", "asan")]
+           ("drv_sections", "asan"), ("drv_labels", "asan"), ("drv_emit_a64", "asan"), ("drv_threads", "tsan"), ("drv_threads", "asan"), ("drv_reject", "asan"), ("drv_api14", "asan")]
 def main():
     for fl in ("asan", "tsan", "plain"):
         build.build_lib(fl)
